@@ -604,7 +604,7 @@ impl Property for C19 {
         (proptest::collection::vec(step(), 1..=12), proptest::option::weighted(0.5, any::<u8>())).prop_map(|(program, ill_seed)| Scenario { program, ill_seed }).boxed()
     }
     fn cases(tier: Tier) -> u32 {
-        tier.pick(2_500, 25_000)
+        tier.pick(5_000, 30_000)
     }
     fn check(s: &Scenario) -> CheckResult {
         check(s)
